@@ -431,6 +431,8 @@ def call(dom, name, args, kw):
         e = args[1]
         return binop(dom, "Pow", a0, e, False)
     if name in ("np.sum", "np.prod", "np.max", "np.min", "np.nanmin"):
+        if nd is None:
+            return a0                   # reduction of a scalar
         if kw.get("axis") is not None:
             raise Unsupported(f"{name} with axis")
         if name == "np.sum":
